@@ -39,6 +39,7 @@ def plan(tier, seed):
     S = [{"kind": "trees", "stream": i, "n": 700 if q else 8000} for i in range(12 if q else 16)]
     S += [{"kind": "bytes", "stream": i, "n": 250 if q else 3000} for i in range(2 if q else 4)]
     S += [{"kind": "templates", "stream": 0, "n": 1 if q else 1}]
+    S += [{"kind": "unaligned", "stream": 0, "n": 150 if q else 1500}]
     return S
 
 
@@ -120,6 +121,39 @@ def vsa_values(obj):
 def viol(res, what, case, **kw):
     res.count("wrong:" + what)
     res.violation({"kind": "vsa-expr", "mon": "M-vsa", "what": what, "case": case, **kw})
+
+
+def K_unaligned_upper_bound_read_as_member(w):
+    """the recorded defect: a variable's declared range has an upper bound that is not lb + k*stride, and the values
+    the result misses are exactly those that come back once the same range is written with its upper bound on the
+    stride (the classifier rebuilds the expression that way and asks the VSA backend again)"""
+    import claripy
+
+    from vf.gen import build as bvb
+
+    if w.get("kind") != "vsa-expr" or not w.get("missing"):
+        return False
+    case = w.get("case") or {}
+    anns, changed = {}, False
+    for n, t in (case.get("annotations") or {}).items():
+        if not t:
+            anns[n] = (None, None)
+            continue
+        bits, st, lb, ub = t[0], t[1], t[2], t[3]
+        if st > 1 and ((ub - lb) % (1 << bits)) % st:
+            ub = (lb + ((ub - lb) % (1 << bits)) // st * st) % (1 << bits)
+            changed = True
+        anns[n] = (bits, (bits, st, lb, ub, bool(t[4]), bool(t[5])))
+    if not changed or case.get("constraints"):
+        return False
+    try:
+        obj = claripy.backends.vsa.convert(annotate(bvb.build(case["expr"]), anns))
+        kind, admits, _ = vsa_values(obj)
+    except Exception:  # noqa: BLE001
+        return False
+    if kind is None:
+        return False
+    return all(admits(v) for _env, v in w["missing"])
 
 
 # ------------------------------------------------------------------------------------------ one case
@@ -260,6 +294,26 @@ def run_shard(spec, res):
     sys.setrecursionlimit(2000)
     kind = spec["kind"]
     rng = random.Random(f"{spec['seed']}:{PID}:{kind}:{spec.get('stream')}")
+    if kind == "unaligned":
+        # a declared range whose upper bound is not lb + k*stride (claripy.SI(stride=4, lower_bound=0, upper_bound=10)):
+        # the members are 0, 4, 8.  Recorded finding (the operations read the stored upper bound as a member).
+        for i in range(spec["n"]):
+            w = rng.choice([4, 5, 8])
+            x = G.bvs("a", w)
+            m = (1 << w) - 1
+            st = rng.choice([2, 3, 4, 5])
+            lb = rng.randrange(0, m // 2)
+            kmax = max(1, min(6, (m - lb) // st - 1))
+            ub = min(m, lb + rng.randrange(1, kmax + 1) * st + rng.randrange(1, st))
+            anns = {f"a{w}": (w, (w, st, lb, ub, False, False))}
+            kc = ["bvv", rng.getrandbits(w), w]
+            d = rng.choice([["sub", kc, x], ["inv", x], ["neg", x], ["sub", x, kc], ["add", x, kc], ["xor", x, kc], ["eq", ["sub", kc, x], ["bvv", rng.getrandbits(w), w]], ["ult", ["inv", x], kc]])
+            res.count("unaligned_cases")
+            try:
+                run_case(res, rng, d, anns, [], "unaligned")
+            except Exception:  # noqa: BLE001
+                res.violation({"kind": "harness-error", "what": "case-raised", "case": {"expr": d}, "tb": traceback.format_exc()[-1500:]})
+        return
     if kind in ("trees", "bytes"):
         for i in range(spec["n"]):
             if kind == "trees":
